@@ -1224,11 +1224,25 @@ def _thread_value(fn, body_list):
       k, kind = t.id, 'truthy'
     if k is None:
       continue
+    # `if k is None: return ...` followed by the rest of the block: the rest is the else branch
+    merged = None
+    if not b.orelse and _leaf_jumps(b.body) and i + 1 < len(body_list) and \
+        not any(isinstance(x, FN + (ast.ClassDef,)) for x in body_list[i + 1:]):
+      merged = body_list[i + 1:]
+      b.orelse = list(merged)
+      del body_list[i + 1:]
+
+    def undo():
+      if merged is not None:
+        b.orelse = []
+        body_list.extend(merged)
     # every read of k is inside b
     inside = {id(x) for x in ast.walk(b)}
     if any(isinstance(x, ast.Name) and x.id == k and isinstance(x.ctx, ast.Load) and id(x) not in inside for x in ast.walk(fn)):
+      undo()
       continue
     if any(_stores(x, k) for x in b.body + b.orelse):
+      undo()
       continue
 
     def outcome(v):
@@ -1265,6 +1279,7 @@ def _thread_value(fn, body_list):
       return False
     acc = []
     if not (tails(a.body, acc) and tails(a.orelse, acc)) or not acc:
+      undo()
       continue
     for stmts, last in acc:
       v = last.value
@@ -1729,6 +1744,33 @@ def _inline_one(fn, refnames, params):
   for n in own:
     if isinstance(n, ast.comprehension):
       comp_targets |= {x.id for x in ast.walk(n.target) if isinstance(x, ast.Name)}
+  # mode E: `t = E; ...; x = t` with t used nowhere else and x untouched in between: E is bound to x directly
+  for _fn, body in _scoped_bodies(fn):
+    if _fn is not None and _fn is not fn:
+      continue
+    for k2, cp in enumerate(body):
+      if not (isinstance(cp, ast.Assign) and len(cp.targets) == 1 and isinstance(cp.targets[0], ast.Name) and isinstance(cp.value, ast.Name)):
+        continue
+      t, x = cp.value.id, cp.targets[0].id
+      if t == x or t in refnames or t in params or (t.startswith('__') and not t.startswith('__t_')) or store_count.get(t, 0) != 1 \
+          or t in nested_names or t in comp_targets:
+        continue
+      if sum(1 for n in own if isinstance(n, ast.Name) and n.id == t) != 2:
+        continue
+      k1 = next((j for j in range(k2) if isinstance(body[j], ast.Assign) and len(body[j].targets) == 1
+                 and isinstance(body[j].targets[0], ast.Name) and body[j].targets[0].id == t), None)
+      if k1 is None:
+        continue
+      between = body[k1 + 1:k2]
+      if any(isinstance(n, ast.Name) and n.id == x for st_ in between for n in ast.walk(st_)) or \
+          any(isinstance(n, ast.Name) and n.id == x for n in ast.walk(body[k1].value)):
+        continue
+      if x in nested_names and any(isinstance(n, ast.Call) for st_ in between for n in ast.walk(st_)):
+        continue      # a closure reading x could run in between
+      body[k1].targets[0].id = x
+      del body[k2]
+      ast.fix_missing_locations(fn)
+      return True
   # mode D: a temporary bound in the branches of an `if` chain and read only by the statement after it: that statement
   # is run at the end of each branch instead (which is what happens anyway), so each branch has its own single binding
   for _fn, body in _scoped_bodies(fn):
@@ -3174,13 +3216,31 @@ def inline_module_constants(tree, modname):
   if vocab is None:
     return 0
   cands = {}
+  folded_in = set()      # ids of Name nodes that were folded into another constant's definition
+
+  def fold(e):
+    """String / number arithmetic over constants and earlier new constants, e.g. _PREFIX + 'name'."""
+    if isinstance(e, ast.Constant):
+      return e
+    if isinstance(e, ast.Name) and e.id in cands and isinstance(cands[e.id], ast.Constant):
+      folded_in.add(id(e))
+      return cands[e.id]
+    if isinstance(e, ast.BinOp) and isinstance(e.op, ast.Add):
+      l_, r_ = fold(e.left), fold(e.right)
+      if isinstance(l_, ast.Constant) and isinstance(r_, ast.Constant) and type(l_.value) is type(r_.value) and isinstance(l_.value, (str, int)):
+        return ast.copy_location(ast.Constant(value=l_.value + r_.value), e)
+    return None
   for st in tree.body:
     tgt = None
     if isinstance(st, ast.Assign) and len(st.targets) == 1 and isinstance(st.targets[0], ast.Name):
       tgt, val = st.targets[0].id, st.value
     elif isinstance(st, ast.AnnAssign) and isinstance(st.target, ast.Name) and st.value is not None:
       tgt, val = st.target.id, st.value
-    if tgt and tgt not in vocab and not isinstance(val, ast.Constant) and _literal_table(val):
+    if tgt and tgt not in vocab and isinstance(val, ast.BinOp):
+      fv = fold(val)
+      if fv is not None:
+        val = fv
+    if tgt and tgt not in vocab and _literal_table(val) and not (isinstance(val, ast.Constant) and val.value is None):
       cands[tgt] = val
   if not cands:
     return 0
@@ -3202,8 +3262,8 @@ def inline_module_constants(tree, modname):
   for name, val in sorted(cands.items()):
     if stores.get(name, 0) != 1:
       continue
-    immutable = isinstance(val, (ast.Tuple, ast.Call))
-    uses = [n for n in ast.walk(tree) if isinstance(n, ast.Name) and n.id == name and isinstance(n.ctx, ast.Load)]
+    immutable = isinstance(val, (ast.Tuple, ast.Call, ast.Constant))
+    uses = [n for n in ast.walk(tree) if isinstance(n, ast.Name) and n.id == name and isinstance(n.ctx, ast.Load) and id(n) not in folded_in]
     ok = bool(uses)
     for n in uses:
       par = parents.get(id(n))
